@@ -59,7 +59,12 @@ def generate(report):
     # the unnamed cutoff of `square`: `if squared_coefficient_len > 64 { return self.fast_square(); }`
     try:
         _, _, body = find_fn(src, "square")
-        m = re.search(r"if\s+squared_coefficient_len\s*>\s*([0-9_]+|[A-Z_:a-z]+)\s*\{\s*return\s+self\.fast_square\(\)", body)
+        # `if len > C { return self.fast_square(); }`  or  `if len > C { self.fast_square() } else { .. }`  or the mirrored
+        # `if len <= C { .. } else { self.fast_square() }`: the same threshold either way
+        m = re.search(r"if\s+squared_coefficient_len\s*>\s*([0-9_]+|[A-Z_:a-z]+)\s*\{\s*(?:return\s+)?self\.fast_square\(\)", body)
+        if not m:
+            m = re.search(r"if\s+squared_coefficient_len\s*<=\s*([0-9_]+|[A-Z_:a-z]+)\s*\{[^{}]*\}\s*else\s*\{\s*(?:return\s+)?"
+                          r"self\.fast_square\(\)", body)
         if not m:
             raise Untranslatable("shape of the dispatch in `square` changed")
         tok = m.group(1)
